@@ -25,7 +25,7 @@ ASSUMPTIONS = [
     "tolerance 1e-30 relative for Decimal-vs-exact comparisons, as stated by the property",
 ]
 MIN_NONTRIVIAL = {"quick": 20000, "thorough": 400000}
-REQUIRED_LABELS = ["region.below", "region.inside", "region.above", "price.at_lower", "price.at_upper", "range.touch_min", "range.touch_max", "market.roundtrip", "market.tick", "market.explicit", "market.default"]
+REQUIRED_LABELS = ["region.below", "region.inside", "region.above", "price.at_lower", "price.at_upper", "range.touch_min", "range.touch_max", "market.roundtrip", "market.tick", "market.explicit", "market.default", "market.partial.uncollected", "market.full.over_request", "market.ttype.int64", "market.companion.between"]
 
 D = Decimal
 TOL = Fraction(1, 10**30)
@@ -224,7 +224,7 @@ def st_market(draw):
     tk = draw(st.sampled_from(["tl", "tu", "tl+1", "tu-1", "mid", "0", "0", "-1", "1"]))
     # ticks as a caller often has them (read from a data frame: numpy integers); a second pool of the same broker at
     # another price, operated in the same bar (nothing of one market may leak into the other)
-    extra = {"ttype": draw(st.sampled_from(["int", "int", "int64"])), "companion": draw(st.sampled_from([None, None, "before", "between"])), "ctick": draw(st.integers(-300000, 300000))}
+    extra = {"pcollect": draw(st.sampled_from([True, True, False])), "over": draw(st.sampled_from([None, None, "plus1", "double"])), "ttype": draw(st.sampled_from(["int", "int", "int64"])), "companion": draw(st.sampled_from([None, None, "before", "between"])), "ctick": draw(st.integers(-300000, 300000))}
     return {**extra, "tk": tk, "d0": d0, "d1": d1, "fee": fee, "tl": tl, "tu": tu, "rk": rk, "q": q, "pk": pk, "u": u, "v": v, "w0": str(w0), "w1": str(w1), "bal": bal_mode, "explicit": explicit, "part": part}
 
 
@@ -323,16 +323,27 @@ def body_market(case, ctx: Ctx):
         # partial removals must add up to the deposit
         piece = liq // (part + 1)
         tot0 = tot1 = D(0)
+        pc = case.get("pcollect", True)
         for _ in range(part):
-            g = market.remove_liquidity(pos, liquidity=piece, **kw) if piece > 0 else (D(0), D(0))
+            g = market.remove_liquidity(pos, liquidity=piece, collect=pc, **kw) if piece > 0 else (D(0), D(0))
             x0, x1 = market._convert_pair(*g)
             tot0, tot1 = tot0 + x0, tot1 + x1
-        g = market.remove_liquidity(pos, **kw)
-        x0, x1 = market._convert_pair(*g)
-        tot0, tot1 = tot0 + x0, tot1 + x1
-        ctx.check(close(tot0, F(u0), Fraction(1, 10**28)) and close(tot1, F(u1), Fraction(1, 10**28)), "market.partial_sum", lambda: f"partial removals {tot0},{tot1} vs deposited {u0},{u1}", info)
+        if pc:
+            g = market.remove_liquidity(pos, **kw)
+            x0, x1 = market._convert_pair(*g)
+            tot0, tot1 = tot0 + x0, tot1 + x1
+        else:
+            # nothing is collected on the way: every call returns what *it* took out of the position; one collect at the end pays all
+            g = market.remove_liquidity(pos, collect=False, remove_dry_pool=False, **kw)
+            x0, x1 = market._convert_pair(*g)
+            tot0, tot1 = tot0 + x0, tot1 + x1
+            c0, c1 = market._convert_pair(*market.collect_fee(pos))
+            ctx.check(close(c0, F(u0), Fraction(1, 10**28)) and close(c1, F(u1), Fraction(1, 10**28)), "market.collect_all", lambda: f"collected {c0},{c1} after uncollected removals vs deposited {u0},{u1}", info)
+        ctx.check(close(tot0, F(u0), Fraction(1, 10**28)) and close(tot1, F(u1), Fraction(1, 10**28)), "market.partial_sum", lambda: f"partial removals (collect={pc}) {tot0},{tot1} vs deposited {u0},{u1}", info)
     else:
-        g = market.remove_liquidity(pos, **kw)
+        # asking for more liquidity than the position holds takes out what it holds (documented clamp)
+        over = {None: None, "plus1": int(liq) + 1, "double": int(liq) * 2}[case.get("over")]
+        g = market.remove_liquidity(pos, **kw) if over is None else market.remove_liquidity(pos, liquidity=over, **kw)
         x0, x1 = market._convert_pair(*g)
         ctx.check(x0 == u0 and x1 == u1, "market.roundtrip_exact", lambda: f"withdrawn {x0},{x1} vs deposited {u0},{u1}", info)
     ctx.check(pos not in market.positions, "market.position_left", "position not removed after full withdrawal and collect", info)
@@ -348,7 +359,7 @@ def body_market(case, ctx: Ctx):
         ctx.check(abs(F(end1) - F(b1)) <= Fraction(1, 10**5) * F(b1), "market.wallet_restore", lambda: f"token1 wallet {b1} -> {end1} (snap)", info)
     if comp:
         comp("check", ctx, info)
-    ctx.case(info, True, labels=["market.roundtrip", f"market.ttype.{case.get('ttype', 'int')}", f"market.companion.{case.get('companion')}", f"market.q{int(q)}", f"market.{'tick' if case['explicit'] == 'tick' else 'explicit' if case['explicit'] else 'default'}", f"market.price.{case['pk']}", "market.partial" if part else "market.full"] + (["market.snap"] if snapped0 or snapped1 else []))
+    ctx.case(info, True, labels=["market.roundtrip", f"market.ttype.{case.get('ttype', 'int')}", f"market.companion.{case.get('companion')}", f"market.q{int(q)}", f"market.{'tick' if case['explicit'] == 'tick' else 'explicit' if case['explicit'] else 'default'}", f"market.price.{case['pk']}", ("market.partial.uncollected" if not case.get("pcollect", True) else "market.partial") if part else ("market.full.over_request" if case.get("over") else "market.full")] + (["market.snap"] if snapped0 or snapped1 else []))
 
 
 BODIES = {"math": (st_math, body_math), "market": (st_market, body_market)}
